@@ -269,7 +269,36 @@ pub fn inject_faults(rng: &mut Rng, source: &str, faults: usize) -> String {
 }
 
 /// A source for general workloads: mostly clean, sometimes with syntax errors.
+/// A tree that is several hundred levels deep: a left-deep operator chain (the leftmost operand
+/// of n operands sits about n + 3 levels down), optionally inside nested calls.
+pub fn deep_source(rng: &mut Rng) -> String {
+    let n = rng.range(40, 420);
+    let op = *rng.pick(&[" + ", " - ", " and ", "."]);
+    let mut s = String::from("total = ");
+    for i in 0..n {
+        if i > 0 {
+            s.push_str(op);
+        }
+        if op == "." {
+            s.push_str(&format!("f{}", i));
+        } else if rng.chance(1, 6) {
+            s.push_str(&format!("g({}, \"p{}\")", i, i));
+        } else {
+            s.push_str(&format!("p{}", i));
+        }
+    }
+    s.push('\n');
+    if rng.chance(1, 3) {
+        let d = rng.range(20, 120);
+        s.push_str(&format!("{}x{}\n", "f(".repeat(d), ")".repeat(d)));
+    }
+    s
+}
+
 pub fn gen_any_source(rng: &mut Rng, max_stmts: usize, fault_pct: usize) -> String {
+    if rng.chance(1, 80) {
+        return deep_source(rng);
+    }
     let src = gen_source(rng, max_stmts);
     if rng.chance(fault_pct, 100) {
         let n = rng.range(1, 4);
